@@ -152,7 +152,7 @@ theorem specWalk_ok (c : Opts) (slack : Int) (e0 : Ev) (hslack : (specLimit c : 
       (cl.bucketOf (mask cl.opts e0.addr)).Inv cl.limit τ → sortedEvs τ es → e0.t ≤ τ →
       ((acc * nano : Nat) : Int) + (cl.bucketOf (mask cl.opts e0.addr)).avail cl.limit cl.burst τ
         ≤ ((cl.burst * nano : Nat) : Int) + ((cl.limit * (τ - e0.t) : Nat) : Int) →
-      specWalk c slack (e0.toS c) acc (es.map (Ev.toS c)) (cl.run es) = true := by
+      specWalk c slack (e0.toS c) acc (es.map (Ev.toS c)) (cl.runAt es) = true := by
   intro es
   induction es with
   | nil => intro cl acc τ _ _ _ _ _; rfl
@@ -168,7 +168,7 @@ theorem specWalk_ok (c : Opts) (slack : Int) (e0 : Ev) (hslack : (specLimit c : 
       rw [← Nat.mul_add]; congr 1; omega
     have hge := Bucket.avail_ge cl.limit cl.burst hLpos _ e.t e.t hinv'
     have hcast := cast_mul_sub cl.limit e.t e0.t (Nat.le_trans h0 hte)
-    simp only [ClientLimiter.run, List.map, specWalk, toS_id_beq, ← hopts]
+    simp only [ClientLimiter.runAt, List.map, specWalk, toS_id_beq, ← hopts]
     have ht0 : (e0.toS c).t = e0.t := rfl
     have hte' : (e.toS c).t = e.t := rfl
     have hne : (e.toS c).n = e.n := rfl
@@ -177,11 +177,11 @@ theorem specWalk_ok (c : Opts) (slack : Int) (e0 : Ev) (hslack : (specLimit c : 
     · simp only [hk, decide_true, if_true, Bool.and_eq_true, decide_eq_true_eq]
       rw [hk] at hinv' hstep hpot hge hinv
       rw [ClientLimiter.bucketOf_allowN_same] at hge
-      have IH := fun acc' hp => ih (cl.allowN e.addr e.t e.n).2 acc' e.t (by simpa using hopts)
+      have IH := fun acc' hp => ih (cl.allowNAt e.addr e.t e.n).2 acc' e.t (by simpa using hopts)
         (by simpa [hk] using hinv') hs' (Nat.le_trans h0 hte) hp
       simp only [ClientLimiter.allowN_opts, ClientLimiter.allowN_limit, ClientLimiter.allowN_burst, hk,
         ClientLimiter.bucketOf_allowN_same] at IH
-      cases hd : (cl.allowN e.addr e.t e.n).1 with
+      cases hd : (cl.allowNAt e.addr e.t e.n).1 with
       | true =>
         rw [ClientLimiter.allowN_fst] at hd
         obtain ⟨_, _, h3⟩ := Bucket.allowN_true hd
@@ -214,7 +214,7 @@ theorem specWalk_ok (c : Opts) (slack : Int) (e0 : Ev) (hslack : (specLimit c : 
         omega
     · simp only [hk, decide_false, Bool.false_eq_true, if_false]
       have hk' : mask cl.opts e.addr ≠ mask cl.opts e0.addr := fun h => hk h.symm
-      have IH := ih (cl.allowN e.addr e.t e.n).2 acc e.t (by simpa using hopts) (by simpa using hinv') hs'
+      have IH := ih (cl.allowNAt e.addr e.t e.n).2 acc e.t (by simpa using hopts) (by simpa using hinv') hs'
         (Nat.le_trans h0 hte)
       simp only [ClientLimiter.allowN_opts, ClientLimiter.allowN_limit, ClientLimiter.allowN_burst,
         ClientLimiter.bucketOf_allowN_other _ _ _ _ _ hk'] at IH
@@ -226,7 +226,7 @@ theorem specWalk_ok (c : Opts) (slack : Int) (e0 : Ev) (hslack : (specLimit c : 
 /-- clause 1 holds for the model from every state that satisfies the invariant -/
 theorem specBound_ok (c : Opts) (slack : Int) (hslack : (specLimit c : Int) - 1 ≤ slack) :
     ∀ (es : List Ev) (cl : ClientLimiter) (τ : Nat), cl.opts = c.setDefault → cl.Inv τ → sortedEvs τ es →
-      specBound c slack es (cl.run es) = true := by
+      specBound c slack es (cl.runAt es) = true := by
   unfold specBound
   intro es
   induction es with
@@ -240,9 +240,9 @@ theorem specBound_ok (c : Opts) (slack : Int) (hslack : (specLimit c : Int) - 1 
         have := Bucket.avail_le_cap cl.limit cl.burst (cl.bucketOf (mask cl.opts e.addr)) e.t
         simp only [Nat.zero_mul, Nat.sub_self, Nat.mul_zero]
         omega)
-    have IH := ih (cl.allowN e.addr e.t e.n).2 e.t (by simpa using hopts) (cl.inv_step e hinv hs.1) hs.2
-    simp only [ClientLimiter.run, List.map] at hw
-    simp only [ClientLimiter.run, List.map, specBoundS, hw, IH, Bool.and_self]
+    have IH := ih (cl.allowNAt e.addr e.t e.n).2 e.t (by simpa using hopts) (cl.inv_step e hinv hs.1) hs.2
+    simp only [ClientLimiter.runAt, List.map] at hw
+    simp only [ClientLimiter.runAt, List.map, specBoundS, hw, IH, Bool.and_self]
 
 /-! ### clause 2: no refusal while the own subnet is within budget -/
 
@@ -314,7 +314,7 @@ theorem tight_step (c : Opts) (slack : Int) (hslack : 0 ≤ slack) (cl : ClientL
     (past : List (SEv × Bool)) (τ : Nat) (e : Ev) (hte : τ ≤ e.t) (k : Addr)
     (hinv : (cl.bucketOf k).Inv cl.limit τ)
     (h : Tight c slack cl k past τ) :
-    Tight c slack (cl.allowN e.addr e.t e.n).2 k ((e.toS c, (cl.allowN e.addr e.t e.n).1) :: past) e.t := by
+    Tight c slack (cl.allowNAt e.addr e.t e.n).2 k ((e.toS c, (cl.allowNAt e.addr e.t e.n).1) :: past) e.t := by
   have hL := limit_of_opts c cl hopts
   have hB := burst_of_opts c cl hopts
   intro t x a ht htM ha hx
@@ -331,7 +331,7 @@ theorem tight_step (c : Opts) (slack : Int) (hslack : 0 ≤ slack) (cl : ClientL
     subst hk
     rw [ClientLimiter.bucketOf_allowN_same] at hx
     simp only [specScan, hsame, if_true, Bool.or_eq_true, decide_eq_true_eq, hpt, hpn]
-    cases hd : (cl.allowN e.addr e.t e.n).1 with
+    cases hd : (cl.allowNAt e.addr e.t e.n).1 with
     | false =>
       rw [ClientLimiter.allowN_fst] at hd
       rw [(Bucket.allowN_false hd).2] at hx
@@ -380,7 +380,7 @@ theorem tight_step (c : Opts) (slack : Int) (hslack : 0 ≤ slack) (cl : ClientL
 theorem specNoSpur_ok (c : Opts) (slack : Int) (hslack : 0 ≤ slack) :
     ∀ (es : List Ev) (cl : ClientLimiter) (past : List (SEv × Bool)) (τ : Nat), cl.opts = c.setDefault →
       cl.Inv τ → (∀ k, Tight c slack cl k past τ) → sortedEvs τ es → (∀ e ∈ es, e.t ≤ maxDuration) →
-      specNoSpuriousRefusalS c slack past (es.map (Ev.toS c)) (cl.run es) = true := by
+      specNoSpuriousRefusalS c slack past (es.map (Ev.toS c)) (cl.runAt es) = true := by
   intro es
   induction es with
   | nil => intro cl past τ _ _ _ _ _; rfl
@@ -389,12 +389,12 @@ theorem specNoSpur_ok (c : Opts) (slack : Int) (hslack : 0 ≤ slack) :
     have hL := limit_of_opts c cl hopts
     have hB := burst_of_opts c cl hopts
     have hLpos : 0 < cl.limit := hL ▸ specLimit_pos c
-    have IH := ih (cl.allowN e.addr e.t e.n).2 ((e.toS c, (cl.allowN e.addr e.t e.n).1) :: past) e.t
+    have IH := ih (cl.allowNAt e.addr e.t e.n).2 ((e.toS c, (cl.allowNAt e.addr e.t e.n).1) :: past) e.t
       (by simpa using hopts) (cl.inv_step e hinv hs.1)
       (fun k => tight_step c slack hslack cl hopts past τ e hs.1 k (hinv k) (ht k)) hs.2
       (fun e' he' => hM e' (List.mem_cons_of_mem _ he'))
-    simp only [ClientLimiter.run, List.map, specNoSpuriousRefusalS, IH, Bool.and_true]
-    cases hd : (cl.allowN e.addr e.t e.n).1 with
+    simp only [ClientLimiter.runAt, List.map, specNoSpuriousRefusalS, IH, Bool.and_true]
+    cases hd : (cl.allowNAt e.addr e.t e.n).1 with
     | true => rfl
     | false =>
       rw [ClientLimiter.allowN_fst] at hd
